@@ -6,7 +6,8 @@ from .c19 import generator_adts, GENERATORS
 
 RULE = ("(R1) differential value numbering: every operation of every generator type is value-numbered on the same symbolic inputs in each build "
         "configuration (dev/rel profile flags x default/serde/std+log features) and the returned value and all reachable state must be the "
-        "identical normal forms; (R3) every cfg / cfg_attr / cfg! predicate atom in the sources is in the frozen allow-list and there is no "
+        "identical normal forms (operations with a data-dependent loop are compared through their loop summaries: loop variables, initial "
+        "values, invariant intervals, the per-iteration update terms, exit conditions, trip bound and calls per iteration); (R3) every cfg / cfg_attr / cfg! predicate atom in the sources is in the frozen allow-list and there is no "
         "debug_assert*, no debug_assertions / overflow_checks / target_endian / target_pointer_width dependence; (R4) unsafe blocks, fns and "
         "impls are exactly the frozen allow-list; (R5) no floating-point type occurs in any body reachable from a generator operation")
 EXPLANATION = ("Decides that no source construct whose meaning depends on the build configuration can influence a generator operation; that "
@@ -33,17 +34,84 @@ UNSAFE_ALLOWED_FNS = {
 }
 
 
-def eval_op(crate, key, opaque_extra=()):
-    ev = crate.evaluator()
+def eval_op(crate, key, opaque_extra=(), summarise=False):
+    ev = crate.evaluator(max_steps=6000000) if summarise else crate.evaluator()
+    if summarise:
+        ev.summarise_loops = True
+        ev.unroll_limit = 1100 if crate.name != "rand_jitter" else 100
     for d in OPAQUE:
         ev.no_inline.add(d)
     for d in opaque_extra:
         ev.no_inline.add(d)
+    # the `log` facade receives shared references and formatted copies only (a &mut argument would be havocked and show up as a
+    # state difference), so a logging call cannot change what the operation returns or stores: it is not an effect to compare
+    ev.neutral_crates.add("log")
     st = State()
     body = crate.bodies[key]
     args, objs = symbolic_args(ev, st, body)
     ret = ev.call_body(st, key, args)
-    return ret, {n: st.objs[o] for n, o in objs.items()}, st.world, len(ev.calls)
+    ncalls = sum(1 for c in ev.calls if not (c[3] == "fmt" or c[1].startswith("log::") or c[1].startswith("<log::")))
+    return ret, {n: st.objs[o] for n, o in objs.items()}, st.world, ncalls, loop_signatures(crate, ev)
+
+
+TEMP_RE = re.compile(r"^L\d+\.t\d+")
+
+
+def loop_signatures(crate, ev):
+    """configuration-independent description of every summarised loop: owning function and, for every loop variable that lives in
+    a source-level variable or in caller-visible state, its initial value, invariant interval and value after one more iteration;
+    continuation and exit conditions, trip bound, calls per iteration. Compiler temporaries (whose number depends on the build
+    profile) are left out, and the signature is marked unusable when a compared term mentions one."""
+    out = []
+    for rec in ev.loops_log:
+        fn = crate.bodies[rec.body]["def"] if rec.body in crate.bodies else rec.body
+        temps = {n for n, wh, init, t, rng in rec.vars if TEMP_RE.match(n)}
+        vs = []
+        terms = []
+        for n, wh, init, t, rng in rec.vars:
+            if n in temps:
+                continue
+            nxt = tuple((c[1].get(n) if isinstance(c[1].get(n), T.T) else None) for c in rec.conts)
+            vs.append((n, init if isinstance(init, T.T) else None, rng, nxt))
+            terms.extend(x for x in nxt if x is not None)
+        conds = tuple((c, w) for c, nxt, w, a in rec.conts)
+        exits = tuple((c, how) for c, how, at in rec.exits)
+        terms.extend(c for c, w in conds)
+        terms.extend(w for c, w in conds)
+        terms.extend(c for c, how in exits)
+        live_temp = False
+        if temps:
+            acc = set()
+            for t in terms:
+                if isinstance(t, T.T):
+                    T.atoms_of(t, acc)
+            live_temp = bool(acc & temps)
+        out.append((fn, tuple(vs), conds, exits, rec.trip, len(rec.calls), live_temp))
+    return out
+
+
+def same_loops(a, b):
+    """-> True / False / None (None: a compiler temporary is live across iterations, the signatures cannot be compared)"""
+    if len(a) != len(b):
+        return False
+    if any(x[6] for x in a) or any(y[6] for y in b):
+        return None
+    for x, y in zip(a, b):
+        if x[0] != y[0] or x[4] != y[4] or x[5] != y[5] or len(x[1]) != len(y[1]) or len(x[2]) != len(y[2]) or len(x[3]) != len(y[3]):
+            return False
+        for (n1, i1, r1, nx1), (n2, i2, r2, nx2) in zip(x[1], y[1]):
+            if n1 != n2 or i1 is not i2 or r1 != r2 or len(nx1) != len(nx2) or any(p is not q for p, q in zip(nx1, nx2)):
+                return False
+        for (c1, w1), (c2, w2) in zip(x[2], y[2]):
+            if c1 is not c2 or w1 is not w2:
+                return False
+        for (c1, h1), (c2, h2) in zip(x[3], y[3]):
+            if c1 is not c2 or h1 != h2:
+                return False
+    return True
+
+
+SLOW_SUMMARISED = ("rand_jitter::JitterRng::<F>::test_timer",)  # ~18 s per configuration: thorough tier only
 
 
 def strip_comments_and_strings(src):
@@ -116,6 +184,8 @@ def run(chk, tier):
     compared = 0
     skipped = []
     nops = 0
+    summarised = set()
+    nsumm = nloops = 0
     for cname in facts.CRATES:
         base = Crate(cname, *base_cfg)
         chk.config(base.config)
@@ -137,7 +207,15 @@ def run(chk, tier):
         for ident, tr, m, key in ops:
             try:
                 base_results[key] = eval_op(base, key)
-            except (Unsupported, SymbolicLoop, Diverged, RecursionError) as e:
+            except SymbolicLoop as e:
+                base_results[key] = e
+                if tier == "thorough" or base.bodies[key]["def"] not in SLOW_SUMMARISED:
+                    try:
+                        base_results[key] = eval_op(base, key, summarise=True)
+                        summarised.add(key)
+                    except (Unsupported, SymbolicLoop, Diverged, RecursionError) as e2:
+                        base_results[key] = e2
+            except (Unsupported, Diverged, RecursionError) as e:
                 base_results[key] = e
         for oc in others:
             if oc[0] == "serde" and cname not in ("rand_xoshiro", "rand_isaac", "rand_xorshift"):
@@ -153,7 +231,7 @@ def run(chk, tier):
                     continue
                 b0 = base_results[key]
                 try:
-                    r1 = eval_op(other, key)
+                    r1 = eval_op(other, key, summarise=key in summarised)
                 except (Unsupported, SymbolicLoop, Diverged, RecursionError) as e:
                     r1 = e
                 if isinstance(b0, Exception) or isinstance(r1, Exception):
@@ -164,14 +242,23 @@ def run(chk, tier):
                            where=base.bodies[key]["span"][0])
                     continue
                 chk.body(key)
+                sl = same_loops(b0[4], r1[4])
+                if sl is None:
+                    skipped.append("%s (compiler temporary live across loop iterations)" % key)
+                    continue
                 ok = same_value(b0[0], r1[0]) and set(b0[1]) == set(r1[1]) and all(same_value(b0[1][n], r1[1][n]) for n in b0[1]) \
-                    and b0[2] is r1[2] and b0[3] == r1[3]
+                    and b0[2] is r1[2] and b0[3] == r1[3] and sl
                 compared += 1
+                if key in summarised:
+                    nsumm += 1
+                    nloops += len(b0[4])
                 chk.ob("R1", inst + "|identical value and state effects", ok,
                        "" if ok else "normal forms differ between configurations", where=base.bodies[key]["span"][0],
                        sample={"operation": key, "configs": [base.config, "%s/%s" % oc], "identical": ok} if compared % 97 == 1 else None)
     chk.extra["operations"] = nops
     chk.extra["compared"] = compared
+    chk.extra["compared_through_loop_summaries"] = nsumm
+    chk.extra["loop_summaries_compared"] = nloops
     chk.extra["not_value_numbered_in_any_config"] = sorted(set(skipped))[:60]
     chk.floor("R1", "operation comparisons", compared, 400 if tier == "quick" else 700)
 
